@@ -6,6 +6,9 @@
   Parameters: the detectors (trufflehog's `Keywords()` / `FromData`, `none` = FromData returned an error) and the
   scalar text `sh` (`%v`); `fmt.Sprintf("%v", cell)` for whole cells is `Spec.Search.fmtV` (documented fmt behaviour:
   `<nil>`, `[a b]`, `map[k:v …]` with sorted keys).  `strings.Contains` = `bytesContains` (same specification).
+  After fix search/04 the cell text is `cellText(value)` = `%v` of the value with every `[]byte` replaced by the string
+  of the same bytes; on the values of this file (`GoVal`: no `[]byte`) that is `%v` itself, i.e. `fmtV` — the model with
+  `[]byte` values is Model/SearchBytes.lean.
   Rows are walked in `rowKeys` order (fix search/02; before it: Go's random map order — only the order of the
   findings depended on it, not the set).  After fix search/03 ScanString lower-cases `data` once and tests
   `bytesContains(dataLower, lowerASCII(kw))`; that is `containsIgnoreCase data kw` unfolded (sharing the lower-cased
